@@ -226,6 +226,8 @@ void ev_dump(FILE *f, int last);
 
 void w_noise_group(unsigned per_mille);   /* adds a group with one event-only command and switches background event traffic on for run_quiet() */
 extern struct cat_command *NOISE_CMD; extern unsigned NOISE_PM;
+extern unsigned QUERY_PM;            /* per-mille chance per service call of run_quiet() that one of the read-only API functions is called */
+void api_queries(void);
 long run_quiet(long maxsteps);      /* service until OK with all input consumed; -1 if not reached */
 long quiet_bound(void);
 void w_describe(FILE *f);
